@@ -1,6 +1,6 @@
 (* C18 — Telstate stream resolution and flag-stream upgrade.  Statements only. *)
 From Coq Require Import ZArith List Bool String Permutation.
-From KV Require Import Base.Sx Base.Str Gen.Generated Model.Telstate Proofs.TelstateP.
+From KV Require Import Base.Sx Base.Str Gen.Generated Model.Telstate Proofs.TelstateP Model.TelstateArrays Proofs.TelstateArraysP.
 Import ListNotations.
 Open Scope string_scope.
 Open Scope list_scope.
@@ -286,3 +286,127 @@ Print Assumptions C18_view_stacking_falls_back.
 Theorem C18_align_idempotent : forall arrays, align_chunk_info (align_chunk_info arrays) = align_chunk_info arrays.
 Proof. exact align_idempotent. Qed.
 Print Assumptions C18_align_idempotent.
+
+(* ================= chunk infos with ALL their arrays (Model/TelstateArrays.v) =================
+   Every array of a chunk info has its own shape, time chunks and prefix; uci_lo / uci_hi / uci_refuses (which part of
+   the shapes _upgrade_chunk_info compares, and how), al_extends / al_phantom (_align_chunk_info) are GENERATED. *)
+
+(* the part of a shape that must agree is everything after the dump axis: shape[1:] *)
+Theorem C18_shape_compared_part : forall n r, shape_key (n :: r) = r.
+Proof. exact shape_key_cons. Qed.
+Print Assumptions C18_shape_compared_part.
+
+(* "an incompatible channel or baseline shape is an error", PER AXIS: an offered array that differs from the array it
+   would replace on the channel axis (i = 1), on the baseline axis (i = 2), on any further axis or in the number of
+   axes is refused with ValueError (Err 1) - wherever it stands in the offered chunk info *)
+Theorem C18_shape_axis_refused : forall imp d k a o i, NoDup (dkeys imp) -> In (k, a) imp -> dget d k = Some o ->
+  (1 <= i)%nat -> nth_error (a_shape a) i <> nth_error (a_shape o) i -> upgrade_chunk_info d imp = Err 1.
+Proof. exact uci_axis_refused. Qed.
+Print Assumptions C18_shape_axis_refused.
+
+(* ... and ONLY then: the offered chunk info is accepted iff each of its arrays that has a counterpart agrees with
+   it on every axis but the dump axis (a different number of dumps is never an error; a new array is always accepted) *)
+Theorem C18_shape_accepted_iff : forall imp, NoDup (dkeys imp) -> forall d,
+  (exists d', upgrade_chunk_info d imp = Ok d') <->
+  (forall k a o, In (k, a) imp -> dget d k = Some o -> shape_key (a_shape a) = shape_key (a_shape o)).
+Proof. exact uci_ok_iff. Qed.
+Print Assumptions C18_shape_accepted_iff.
+
+(* the result array by array: an offered array replaces its counterpart (or is added), every other array is the
+   original one, untouched *)
+Theorem C18_upgrade_chunk_info_per_array : forall imp, NoDup (dkeys imp) -> forall d d', upgrade_chunk_info d imp = Ok d' ->
+  forall k, dget d' k = match dget imp k with Some a => Some a | None => dget d k end.
+Proof. exact uci_get. Qed.
+Print Assumptions C18_upgrade_chunk_info_per_array.
+
+(* the keys of the original stay first and in their order *)
+Theorem C18_upgrade_chunk_info_keys : forall imp d d', upgrade_chunk_info d imp = Ok d' ->
+  exists extra, dkeys d' = dkeys d ++ extra.
+Proof. exact uci_keys_prefix. Qed.
+Print Assumptions C18_upgrade_chunk_info_keys.
+
+(* _ensure_prefix_is_set: an array without 'prefix' takes the chunk name of the view it was read through, one
+   with a prefix keeps it; KeyError (2) exactly when an array needs a chunk name and the view has none *)
+Theorem C18_prefix_completed : forall name d d', ensure_prefix name d = Ok d' ->
+  d' = map (fun p => (fst p, with_name name (snd p))) d /\ forall k a, In (k, a) d' -> a_prefix a <> None.
+Proof. exact ensure_prefix_ok. Qed.
+Print Assumptions C18_prefix_completed.
+
+Theorem C18_prefix_missing_iff : forall name d, (exists e, ensure_prefix name d = Err e) <->
+  name = None /\ exists k a, In (k, a) d /\ a_prefix a = None.
+Proof. exact ensure_prefix_err. Qed.
+Print Assumptions C18_prefix_missing_iff.
+
+(* the loop of _upgrade_flags over whole chunk infos: only errors 1 (ValueError) and 2 (KeyError) *)
+Theorem C18_arrays_errors : forall stream archived cur e, upgrade_flags_A stream cur archived = Err e -> e = 1%Z \/ e = 2%Z.
+Proof. exact upgradeA_err. Qed.
+Print Assumptions C18_arrays_errors.
+
+(* what must NOT change: whatever the archived streams are, every array of the opened stream is still there with its
+   channel / baseline shape; an array that no flags stream of the opened stream offers is the stream's own *)
+Theorem C18_arrays_keep_shape : forall stream archived cur d', upgrade_flags_A stream cur archived = Ok d' ->
+  forall k o, dget cur k = Some o -> exists a, dget d' k = Some a /\ shape_key (a_shape a) = shape_key (a_shape o).
+Proof. exact upgradeA_keeps. Qed.
+Print Assumptions C18_arrays_keep_shape.
+
+Theorem C18_arrays_untouched : forall stream k archived cur d', upgrade_flags_A stream cur archived = Ok d' ->
+  (forall f i, In f archived -> is_flag_sourceA stream f = true -> fa_info f = Some i -> ~ In k (dkeys i)) ->
+  dget d' k = dget cur k.
+Proof. exact upgradeA_untouched. Qed.
+Print Assumptions C18_arrays_untouched.
+
+(* the LAST flags stream of the opened stream wins, array by array; the archived list composes piecewise *)
+Theorem C18_arrays_last_wins : forall stream archived f i i' cur c k a,
+  is_flag_sourceA stream f = true -> fa_info f = Some i -> ensure_prefix (fa_name f) i = Ok i' -> NoDup (dkeys i') ->
+  upgrade_flags_A stream cur (archived ++ [f]) = Ok c -> dget i' k = Some a -> dget c k = Some a.
+Proof. exact upgradeA_last_wins. Qed.
+Print Assumptions C18_arrays_last_wins.
+
+Theorem C18_arrays_compose : forall stream a b cur,
+  upgrade_flags_A stream cur (a ++ b) =
+  match upgrade_flags_A stream cur a with Ok c => upgrade_flags_A stream c b | Err e => Err e end.
+Proof. exact upgradeA_composes. Qed.
+Print Assumptions C18_arrays_compose.
+
+(* the abstraction of Model.Telstate (a chunk info = its flags array) is SOUND: when the archived streams hold at most
+   a flags array, the upgrade of the whole chunk info seen through its flags array is upgrade_flags (errors included) *)
+Theorem C18_flags_abstraction_sound : forall stream archived cur c0,
+  forallb only_flags archived = true -> cinfo_of cur = Some c0 ->
+  match upgrade_flags_A stream cur archived with
+  | Ok d => option_map Ok (cinfo_of d) = Some (upgrade_flags stream c0 (map fstream_of_A archived))
+  | Err e => upgrade_flags stream c0 (map fstream_of_A archived) = Err e
+  end.
+Proof. exact upgradeA_refines. Qed.
+Print Assumptions C18_flags_abstraction_sound.
+
+(* alignment of ALL arrays: each spans the longest one, keeps its own chunks followed by one-dump phantom chunks,
+   and keeps its other axes, its origin and its prefix; keys and order are kept *)
+Theorem C18_arrays_aligned : forall d k a, In (k, a) d ->
+  let b := align_arr (max_dumps d) a in
+  In (k, b) (align_A d) /\ a_dumps b = max_dumps d /\ tl (a_shape b) = tl (a_shape a) /\ a_id b = a_id a
+  /\ a_prefix b = a_prefix a
+  /\ exists n, a_chunks b = a_chunks a ++ repeat 1%Z n /\ Z.of_nat n = (max_dumps d - a_dumps a)%Z.
+Proof. exact alignA_spec. Qed.
+Print Assumptions C18_arrays_aligned.
+
+Theorem C18_arrays_aligned_keys : forall d, dkeys (align_A d) = dkeys d.
+Proof. exact alignA_keys. Qed.
+Print Assumptions C18_arrays_aligned_keys.
+
+(* the data set spans the longest array of the (upgraded) chunk info: every array AND the synthesised timestamps *)
+Theorem C18_span_all_arrays : forall up stream own name archived d, prepare up stream own name archived = Ok d ->
+  exists c, d = align_A c /\
+  (forall k a, dget d k = Some a -> a_dumps a = max_dumps c) /\
+  (forall n, n_timestamps d = Some n -> n = max_dumps c).
+Proof. exact prepare_span. Qed.
+Print Assumptions C18_span_all_arrays.
+
+Theorem C18_prepare_errors : forall up stream own name archived e,
+  prepare up stream own name archived = Err e -> e = 1%Z \/ e = 2%Z.
+Proof. exact prepare_err. Qed.
+Print Assumptions C18_prepare_errors.
+
+Theorem C18_prepare_disabled_ignores_streams : forall stream own name a1 a2,
+  prepare false stream own name a1 = prepare false stream own name a2.
+Proof. exact prepare_disabled. Qed.
+Print Assumptions C18_prepare_disabled_ignores_streams.
